@@ -200,9 +200,10 @@ class Component( ComponentLevel7 ):
     for c in added_components:
       c._elaborate_read_write_func()
 
-    added_signals, added_method_ports = \
+    added_signals, added_method_ports, added_interfaces = \
       obj._collect_all( [ lambda x: isinstance( x, Signal ), \
-                          lambda x: isinstance( x, MethodPort ) ] )
+                          lambda x: isinstance( x, MethodPort ), \
+                          lambda x: isinstance( x, Interface ) ] )
 
     top._dsl.all_components    |= added_components
     top._dsl.all_signals       |= added_signals
@@ -211,6 +212,7 @@ class Component( ComponentLevel7 ):
     top._dsl.all_named_objects |= added_components
     top._dsl.all_named_objects |= added_signals
     top._dsl.all_named_objects |= added_method_ports
+    top._dsl.all_named_objects |= added_interfaces
 
     for c in added_components:
       top._collect_vars( c )
@@ -292,10 +294,11 @@ class Component( ComponentLevel7 ):
         parent._dsl.NamedObject_fields.remove( foo._dsl.my_name )
 
       # Remove all components, signals, and method ports
-      removed_components, removed_signals, removed_method_ports = \
+      removed_components, removed_signals, removed_method_ports, removed_interfaces = \
         foo._collect_all( [ lambda x: isinstance( x, Component ), \
                             lambda x: isinstance( x, Signal ), \
-                            lambda x: isinstance( x, MethodPort ) ] )
+                            lambda x: isinstance( x, MethodPort ), \
+                            lambda x: isinstance( x, Interface ) ] )
 
       top._dsl.all_components    -= removed_components
       top._dsl.all_signals       -= removed_signals
@@ -305,6 +308,7 @@ class Component( ComponentLevel7 ):
 
       removed_connectables = removed_signals | removed_method_ports
       top._dsl.all_named_objects -= removed_connectables
+      top._dsl.all_named_objects -= removed_interfaces
 
       removed_consts = set()
       if isinstance( foo, Placeholder ):
@@ -351,7 +355,8 @@ class Component( ComponentLevel7 ):
         assert blk in top._dsl.all_upblk_calls
         to_save = set()
         for x in calls:
-          if x in removed_connectables:
+          # an update block can also call an interface (e.g. s.child.ifc())
+          if x in removed_connectables or x in removed_interfaces:
             to_save.add( x )
             saved_upblk_calls.append( (blk, repr(x)) )
         parent._dsl.upblk_calls[blk] -= to_save
@@ -376,7 +381,7 @@ class Component( ComponentLevel7 ):
       for func, calls in parent._dsl.func_calls.items():
         to_save = set()
         for x in calls:
-          if x in removed_connectables:
+          if x in removed_connectables or x in removed_interfaces:
             to_save.add( x )
             saved_func_calls.append( (func, repr(x)) )
         parent._dsl.func_calls[func] -= to_save
